@@ -488,10 +488,11 @@ func (d *driver) instantiate(c *class, ents []jEntry, makers []jMaker, extra vt.
 		for _, e := range ents2 { // and the keyset's own keys under the new id assignment
 			cases = append(cases, tokCase{mk: jMaker{ID: e.ID, PT: e.PT, Mat: e.Mat}, tok: d.token(c, e.Mat, e.PT, e.ID), msg: msgOf(e.Mat)})
 		}
-		ex := vt.Ev{"colbase": ents[j].ID}
+		ex := vt.Ev{}
 		for k, v := range extra {
 			ex[k] = v
 		}
+		ex["colbase"], ex["h"] = ents[j].ID, 0 // a keyset of its own, not a handle of the history
 		d.runSet(c, ents2, cases, ex, nil)
 		d.nCollisions++
 	}
@@ -543,7 +544,7 @@ func (d *driver) runPlan(cls []*class, cases []jCase, makers []jMaker) {
 					continue
 				}
 			}
-			d.instantiate(c, ents, mks, vt.Ev{"case": n}, nil)
+			d.instantiate(c, ents, mks, vt.Ev{"case": n, "h": 0}, nil)
 		}
 	}
 }
